@@ -47,7 +47,7 @@ def block(rng, fault=None):
         out.insert(rng.randint(1, len(out)), "PKGNAME =zzz-9")
     res = []
     for l in out:
-        res.append(rng.choice(["", "", " ", "\t"]) + l + rng.choice(["", "", " ", "\r"]))
+        res.append(rng.choice(["", "", " ", "\t", "", "", "\x0b", "\u0085", "\u00a0", "\u2028", "\u3000", "\x0c"]) + l + rng.choice(["", "", " ", "\r", "", "\u00a0", "\u2028"]))
         if rng.random() < 0.15:
             res.append(rng.choice(["", "   ", "\t"]))
     return res
@@ -68,6 +68,17 @@ def generate(rng, tier):
     for L in range(1, (5 if tier == "quick" else 6)):
         for tup in itertools.product(toks, repeat=L):
             cases.append(Case("scan.read", [enc("".join(tup)), "N"], meta={"nt": L >= 3, "fault": "scope"}, tag="scope"))
+    # long path components (255 / 256 / 1024 / 4096 bytes) in PKG_LOCATION and in the directory of an ALL_DEPENDS item
+    for L in (254, 255, 256, 257, 1024, 4096):
+        for loc in ("devel/" + "x" * L, "c" * L + "/pkg", "../../" + "c" * L + "/" + "p" * L):
+            t = "PKGNAME=a-1\nPKG_LOCATION=" + loc + "\nPKGNAME=b-2\nALL_DEPENDS=p-[0-9]*:../../" + ("c" * L) + "/p q>=1:" + loc + "\n"
+            cases.append(Case("scan.read", [enc(t), "N"], meta={"nt": True, "fault": "long-component"}))
+    # a PKGNAME line indented or followed by any Unicode white space still starts a record; a line of nothing but such
+    # white space is a blank line
+    for b in ("\x0b", "\x0c", "\u0085", "\u00a0", "\u1680", "\u2000", "\u2028", "\u2029", "\u202f", "\u205f", "\u3000", "\u200b", "\ufeff"):
+        for t in ("PKGNAME=foo-1.0\nMAINTAINER=first\n" + b + "PKGNAME=bar-2.0\nMAINTAINER=second\n", b + "\nPKGNAME=a-1\n", b + "\n", "PKGNAME=a-1" + b + "\nCATEGORIES=x\n" + b + "\nPKGNAME=b-2\n",
+                  b + "PKGNAME=a-1\n" + b + "MAINTAINER=m" + b + "\n"):
+            cases.append(Case("scan.read", [enc(t), "N"], meta={"nt": True, "fault": "unicode-blank"}))
     for t in ["", "\n\n", "PKGNAME=a-1\n", "PKGNAME=a-1", "X=1\nPKGNAME=a-1\n", "PKGNAME=a-1\nPKGNAME=b-2\n", "PKGNAME=a-1\n\nALL_DEPENDS=\nPKGNAME=b-2\nALL_DEPENDS=x\n"]:
         cases.append(Case("scan.read", [enc(t), "N"], meta={"nt": True}))
     for _ in range(n):
